@@ -141,6 +141,9 @@ def build(features=()):
     gl = importlib.util.module_from_spec(sp)
     sp.loader.exec_module(gl)
     u.lemma_file(gl.gen(), 'C06', prefix='xoshiro.')
+    for name in list(u.lemmas):
+        if name.endswith('_zero_only_from_zero') or name.endswith('_injective'):
+            u.lemmas[name] = ['C08']     # the code-dependent residue of C07: a non-zero state never steps to zero, states never merge
     return u
 
 
